@@ -152,8 +152,23 @@ def run(ctx):
         ctx.need(key in seen_pairs, "strip-pair table entry no longer matches a growth site: {}".format(key))
     # strip-family calls take a SET of characters: a word-like argument means a prefix/suffix was meant, and
     # the value loses more than the artefact the sibling added (so the round trip does not close)
+    n_strip = strip_rule(ctx, "C08.strip", index.nontest_funcs())
+    ctx.count("strip_calls_with_constant_argument", n_strip)
+    # a transformation applied by an emitter that its parser does not undo is growth outside the IR slots:
+    # the JSON-schema Literal <-> pattern siblings (shared with C06.pattern)
+    from .c06 import _pattern
+
+    ctx.section(_pattern, ctx, index)
+
+
+def strip_rule(ctx, rule, funcs):
+    """
+    strip-family calls take a SET of characters: a word-like argument (`.rstrip("Body")`, `.lstrip("[FK(")`) means a
+    prefix/suffix was meant, and values that begin/end with one of those characters lose more than the affix.
+    Shared: C08 (whole package), C05 (SQLAlchemy marker handling), C01 (docstring text).
+    """
     n_strip = 0
-    for f in index.nontest_funcs():
+    for f in funcs:
         for n in iter_own(f.node):
             if (
                 isinstance(n, ast.Call)
@@ -165,9 +180,10 @@ def run(ctx):
             ):
                 n_strip += 1
                 a = n.args[0].value
-                wordish = len(a) >= 3 and a.isalnum() and len(set(a)) >= 3
+                letters = {ch for ch in a if ch.isalpha()}
+                wordish = len(a) >= 3 and (a.isalnum() and len(set(a)) >= 3 or len(letters) >= 2 and not a.isalnum() and any(ch in "[]()<>{}" for ch in a))
                 ctx.ob(
-                    "C08.strip",
+                    rule,
                     f,
                     n,
                     not wordish,
@@ -176,12 +192,7 @@ def run(ctx):
                     else "`.{}({!r})` removes any of the characters {} from the end(s), not the affix {!r}: values that end "
                     "in one of those letters are over-stripped".format(n.func.attr, a, sorted(set(a)), a),
                 )
-    ctx.count("strip_calls_with_constant_argument", n_strip)
-    # a transformation applied by an emitter that its parser does not undo is growth outside the IR slots:
-    # the JSON-schema Literal <-> pattern siblings (shared with C06.pattern)
-    from .c06 import _pattern
-
-    ctx.section(_pattern, ctx, index)
+    return n_strip
 
 
 def _discharge(index, f, n, slot, art, facts, seen_pairs, canon=None):
@@ -246,7 +257,10 @@ def _discharge(index, f, n, slot, art, facts, seen_pairs, canon=None):
     p = f.mod.parents.get(n)
     while p is not None and p is not f.node:
         if isinstance(p, ast.If):
-            tt = norm(p.test)
+            from ..defuse import expand_aliases
+
+            # the popped trigger may have been given a name first: nullable = _param.pop("nullable", False)
+            tt = norm(expand_aliases(f, p.test))
             if any(tok in tt for tok in toks) and ".pop(" in tt:
                 return "a", "guarded by absence test, the other disjunct pops its trigger: `{}`".format(short(tt, 70))
         p = f.mod.parents.get(p)
